@@ -184,6 +184,12 @@ def run(ctx):
     combos.append((['C=C'], ['C=C-to-C-C', 'CH-scission']))
     combos.append((['CO'], ['OH-scission', 'CO-scission', 'CH-scission']))
     combos.append((['CCO'], ['ring:OH-scission', 'ring:CC-scission']))
+    # a seed that is a radical of an earlier seed, with rules that do not regenerate it from the parent
+    combos.append((['CC', 'C[CH2]'], ['CC-scission']))
+    combos.append((['C[CH2]', 'CC'], ['CC-scission']))
+    combos.append((['C', '[CH3]'], ['ring:CC-scission']))
+    combos.append((['CO', 'C[O]'], ['CC-scission', 'C=C-to-C-C']))
+    combos.append((['C=C', '[CH]=C'], ['CC-scission']))
     # valid and over-valent products of one rule application, in both orders
     combos.append((['[CH2][CH]C'], ['C-C-to-C=C']))
     combos.append((['C[CH][CH2]'], ['C-C-to-C=C']))
